@@ -196,8 +196,69 @@ func body(c Case, w *world) func() {
 				w.bad("C13|T4|transport-not-closed", "Conn.Close returned, the transport is still open")
 			}
 			w.facts["conn-closed"] = "yes"
+		case "T7-close-logical-channel", "T4-conn-close-logical":
+			// logical channels (id > 0): the peer acknowledges set-up and tear-down with header-only PROTACK packets
+			vrt.GoNamed("peer", func() { multiPeer(pipe, c.M) })
+			var chans []*tds.Channel
+			for i := 0; i < 1+c.N%2; i++ {
+				lc, err := conn.NewChannel()
+				if err != nil {
+					w.bad("C13|setup", "NewChannel: "+err.Error())
+					return
+				}
+				chans = append(chans, lc)
+			}
+			if c.Scenario == "T7-close-logical-channel" {
+				lc := chans[0]
+				ctx, cancel := context.WithCancel(context.Background())
+				defer cancel()
+				if c.N >= 2 {
+					// another goroutine waits on the channel while it is closed; its context is cancelled afterwards
+					vrt.GoNamed("user", func() {
+						_, err := lc.NextPackage(ctx, true)
+						w.facts["user"] = fmt.Sprint(err != nil)
+					})
+					vrt.GoNamed("canceller", func() { cancel() })
+				}
+				lc.Close()
+				afterClose(lc, w)
+				// the rest of the connection still works: channel 0 can be closed and the connection too
+			}
+			conn.Close()
+			for _, lc := range chans {
+				afterClose(lc, w)
+			}
+			afterClose(ch, w)
+			if !pipe.IsClosed() {
+				w.bad("C13|T4|transport-not-closed", "Conn.Close returned, the transport is still open")
+			}
+			w.facts["conn-closed"] = "yes"
 		default:
 			w.bad("C13|setup", "unknown scenario "+c.Scenario)
+		}
+	}
+}
+
+// multiPeer serves logical channels: PROTACK for set-up, for tear-down (ackClose: 0 never, 1 at once), logout answer.
+func multiPeer(pipe *vrt.Pipe, ackClose int) {
+	for {
+		wr := pipe.PeerRecv()
+		if wr == nil {
+			return
+		}
+		if len(wr) < 8 {
+			continue
+		}
+		channel := int(wr[4])<<8 | int(wr[5])
+		switch {
+		case wr[0] == 8: // set-up
+			pipe.PeerSend(hx.Packet(11, hx.EOM, channel, 0, nil))
+		case wr[0] == 9: // tear-down
+			if ackClose == 1 {
+				pipe.PeerSend(hx.Packet(11, hx.EOM, channel, 0, nil))
+			}
+		case len(wr) > 8 && wr[8] == tdspkg.TokLogout:
+			pipe.PeerSend(hx.Packet(4, hx.EOM, channel, 0, done0()))
 		}
 	}
 }
@@ -377,6 +438,12 @@ func main() {
 		cases = append(cases, Case{Scenario: "T4-conn-close", N: n})
 	}
 	cases = append(cases, Case{Scenario: "T4-conn-close", N: 1, M: 1})
+	for n := 0; n <= 3; n++ {
+		for m := 0; m <= 1; m++ {
+			cases = append(cases, Case{Scenario: "T7-close-logical-channel", N: n, M: m})
+		}
+	}
+	cases = append(cases, Case{Scenario: "T4-conn-close-logical", N: 0, M: 1}, Case{Scenario: "T4-conn-close-logical", N: 1, M: 1}, Case{Scenario: "T4-conn-close-logical", N: 1, M: 0})
 	// every scenario is explored by all shards (level-1 subtrees are distributed inside vrt.Explore)
 	for _, c := range cases {
 		if h.Expired("scenario list cut short") {
